@@ -451,3 +451,81 @@ func (e *Exec) rtypeMethod(rt Rtype, name string, args []Value) Value {
 }
 
 var _ = sort.Strings
+
+func init() {
+	R := func(name string, f func(e *Exec, r RV, a []Value) Value) {
+		intrinsics["(reflect.Value)."+name] = func(e *Exec, a []Value) Value { return f(e, a[0].(RV), a[1:]) }
+	}
+	R("CanAddr", func(e *Exec, r RV, a []Value) Value { return Bool(r.addr) })
+	R("IsNil", func(e *Exec, r RV, a []Value) Value {
+		e.mustKind(r, "IsNil", reflect.Chan, reflect.Func, reflect.Interface, reflect.Map, reflect.Pointer, reflect.Slice, reflect.UnsafePointer)
+		switch v := r.v.(type) {
+		case Ptr:
+			return Bool(v.slot == nil)
+		case *Map:
+			return Bool(v == nil)
+		case Slice:
+			return Bool(!v.ok)
+		case Iface:
+			return Bool(v.t == nil)
+		case NilFunc:
+			return tTrue
+		case nil:
+			return tTrue
+		}
+		return tFalse
+	})
+	R("NumField", func(e *Exec, r RV, a []Value) Value {
+		e.mustKind(r, "NumField", reflect.Struct)
+		return Const(64, uint64(r.t.Underlying().(*types.Struct).NumFields()))
+	})
+	R("Field", func(e *Exec, r RV, a []Value) Value {
+		e.mustKind(r, "Field", reflect.Struct)
+		st := r.t.Underlying().(*types.Struct)
+		i := e.rIndex(a[0].(*Term), st.NumFields())
+		f := st.Field(i)
+		return RV{valid: true, t: f.Type(), v: copyVal(r.v.(Struct)[i]), ro: r.ro || !f.Exported(), addr: r.addr}
+	})
+	intrinsics["reflect.SliceOf"] = func(e *Exec, a []Value) Value {
+		return e.rtypeIface(types.NewSlice(a[0].(Iface).v.(Rtype).t))
+	}
+	intrinsics["reflect.MakeSlice"] = func(e *Exec, a []Value) Value {
+		t := a[0].(Iface).v.(Rtype).t
+		st, ok := t.Underlying().(*types.Slice)
+		if !ok {
+			e.gopanic("reflect.MakeSlice of non-slice type")
+		}
+		n := int(int64(e.concretize(a[1].(*Term), 64)))
+		c := int(int64(e.concretize(a[2].(*Term), 64)))
+		if n < 0 || c < n {
+			e.gopanic("reflect.MakeSlice: len/cap out of range")
+		}
+		v := make([]Value, c)
+		for i := range v {
+			v[i] = zero(st.Elem())
+		}
+		return RV{valid: true, t: t, v: Slice{o: e.newObj("reflect.MakeSlice"), v: v[:n], ok: true}}
+	}
+	intrinsics["reflect.Copy"] = func(e *Exec, a []Value) Value {
+		dst, src := a[0].(RV), a[1].(RV)
+		d, ok := dst.v.(Slice)
+		if !ok {
+			e.gopanic("reflect.Copy: destination is not a slice")
+		}
+		var sv []Value
+		switch s := src.v.(type) {
+		case Slice:
+			sv = s.v
+		case Array:
+			sv = []Value(s)
+		default:
+			e.gopanic("reflect.Copy: source is not a slice or array")
+		}
+		n := 0
+		for n < len(d.v) && n < len(sv) {
+			d.v[n] = copyVal(sv[n])
+			n++
+		}
+		return Const(64, uint64(n))
+	}
+}
